@@ -91,67 +91,67 @@ theorem payCheck_ok_iff_all : ∀ v : PayVec, (payCheck payCheckOrder v == .ok) 
 /-- C03: on the client path, a put for a key the store does not hold happens only after all payment checks passed -/
 theorem tbl_new_store_needs_payment : ∀ client k o,
     (!(client && freshObs o && hasW (tr client k o)) || (o.pay == .ok && isPaid k)) = true :=
-  allTable_spec (by decide)
+  allTable_spec (by decide +kernel)
 
 /-- C03: a failed payment (or none) for a key not held: error and no put -/
 theorem tbl_failure_rejects : ∀ client k o,
     (!(client && freshObs o && (o.pay != .ok || !isPaid k)) || (rs client k o != .ok && !hasW (tr client k o))) = true :=
-  allTable_spec (by decide)
+  allTable_spec (by decide +kernel)
 
 /-- C03: a put without a fully valid payment only for a key that is held and a mutable kind; a held chunk is never rewritten -/
 theorem tbl_unpaid_only_updates : ∀ client k o,
     (!(client && hasW (tr client k o) && (o.pay != .ok || !isPaid k)) || (o.h1 && kindFam k != 0)) = true :=
-  allTable_spec (by decide)
+  allTable_spec (by decide +kernel)
 
 theorem tbl_chunk_never_rewritten : ∀ client k o,
     (!(o.h1 && kindFam k == 0) || !hasW (tr client k o)) = true :=
-  allTable_spec (by decide)
+  allTable_spec (by decide +kernel)
 
 /-- every error result comes with no put at all -/
 theorem tbl_error_no_put : ∀ client k o,
     (!(rs client k o != .ok) || !hasW (tr client k o)) = true :=
-  allTable_spec (by decide)
+  allTable_spec (by decide +kernel)
 
 /-- C04: a put happens only when the record key is the derived key, and the record decoded -/
 theorem tbl_put_needs_key_match : ∀ client k o,
-    (!(hasW (tr client k o)) || (o.km && o.parse)) = true :=
-  allTable_spec (by decide)
+    (!(hasW (tr client k o)) || ((o.km || (!client && k == .tx)) && o.parse)) = true :=
+  allTable_spec (by decide +kernel)
 
 /-- C04: key mismatch: error, no put (the replicated transaction vector has no single derived key: `km` is
 fixed to true there and foreign entries are filtered instead) -/
 theorem tbl_mismatch_rejected : ∀ client k o,
-    (!(!o.km) || (rs client k o != .ok && !hasW (tr client k o))) = true :=
-  allTable_spec (by decide)
+    (!(!o.km && !(!client && k == .tx)) || (rs client k o != .ok && !hasW (tr client k o))) = true :=
+  allTable_spec (by decide +kernel)
 
 /-- at most one put per validation -/
-theorem tbl_one_put : ∀ client k o, (((tr client k o).filter isW).length ≤ 1) = true :=
-  allTable_spec (by decide)
+theorem tbl_one_put : ∀ client k o, (decide (((tr client k o).filter isW).length ≤ 1)) = true :=
+  allTable_spec (by decide +kernel)
 
 /-- C07 scratchpads: a put only when the local counter does not block and the signature is valid -/
 theorem tbl_pad_put : ∀ client k o,
     (!(hasW (tr client k o) && kindFam k == 1) || (!(o.lSome && o.cA) && o.cB && (!o.lSome || o.lOk))) = true :=
-  allTable_spec (by decide)
+  allTable_spec (by decide +kernel)
 
 /-- C07 transactions: a put only of a non-empty valid set, merged with a local copy of the right kind -/
 theorem tbl_tx_put : ∀ client k o,
     (!(hasW (tr client k o) && kindFam k == 2) || (o.cA && o.cB && (!o.lSome || o.lOk) && (tr client k o).contains .Wm)) = true :=
-  allTable_spec (by decide)
+  allTable_spec (by decide +kernel)
 
 /-- C07 registers: a put only of a verified register; merged (`Wm`) exactly when the key is held -/
 theorem tbl_reg_put : ∀ client k o,
     (!(hasW (tr client k o) && kindFam k == 3) ||
       (o.cA && (if o.h2 then (o.lSome && o.lOk && o.cB && (tr client k o).contains .Wm && !(tr client k o).contains .Wd)
                 else ((tr client k o).contains .Wd && !(tr client k o).contains .Wm)))) = true :=
-  allTable_spec (by decide)
+  allTable_spec (by decide +kernel)
 
 /-- chunk puts are `Wd` -/
 theorem tbl_fam_of_put : ∀ client k o,
     (!(hasW (tr client k o) && (kindFam k == 0 || kindFam k == 1)) || !(tr client k o).contains .Wm) = true :=
-  allTable_spec (by decide)
+  allTable_spec (by decide +kernel)
 
 /-- a put over a held key needs a local copy of the same kind (so kinds never overwrite each other) -/
 theorem tbl_put_over_held_same_kind : ∀ client k o,
     (!(hasW (tr client k o) && heldObs o) || (kindFam k != 0 && o.lOk)) = true :=
-  allTable_spec (by decide)
+  allTable_spec (by decide +kernel)
 
 end SafeNet.Validate
